@@ -176,15 +176,17 @@ pub open spec fn new_room_entitled(n: RoomNode) -> bool {
 //@ attr #[verifier::loop_isolation(false)]
 //@ rewrite E16 "\"[A-Za-z ]+\"\.to_string\(\)" => "fmt_stub()" x*
 //@ loop "for new_user in &new_auth.user_nodes" iter it
-        invariant forall|i: int| 0 <= i < it.index@ ==> spec_can_admin_users(authorisation, (#[trigger] new_auth.user_nodes@[i]).node.verifying_key, new_auth.user_nodes@[i].node.mdate),
+        invariant forall|i: int| 0 <= i < it.index@ ==> spec_can_admin_users(authorisation, (#[trigger] new_auth.user_nodes@[i]).node.verifying_key, new_auth.user_nodes@[i].node.mdate)
+                || spec_is_admin(*room, new_auth.user_nodes@[i].node.verifying_key, new_auth.user_nodes@[i].node.mdate),
 //@ loop "for new_right in &new_auth.right_nodes" iter it
         invariant forall|i: int| 0 <= i < it.index@ ==> spec_is_admin(*room, (#[trigger] new_auth.right_nodes@[i]).node.verifying_key, new_auth.right_nodes@[i].node.mdate),
 //@ loop "for new_user_admin in &new_auth.user_admin_nodes" iter it
         invariant forall|i: int| 0 <= i < it.index@ ==> spec_is_admin(*room, (#[trigger] new_auth.user_admin_nodes@[i]).node.verifying_key, new_auth.user_admin_nodes@[i].node.mdate),
 //@ spec
         ensures
-            // [new_group_users_by_user_admins] in a group new to the receiver every user entry was authored by a user admin of that group at the entry's date
-            r is Ok ==> forall|i: int| 0 <= i < new_auth.user_nodes@.len() ==> spec_can_admin_users(spec_parse_auth(*new_auth), (#[trigger] new_auth.user_nodes@[i]).node.verifying_key, new_auth.user_nodes@[i].node.mdate),
+            // [new_group_users_by_user_admins] in a group new to the receiver every user entry was authored, at the entry's date, by a user admin of that group or by an admin of the room (C07: "an admin or a user admin of the group for users"; the same rule as for a group the receiver already holds and as the local mutation path)
+            r is Ok ==> forall|i: int| 0 <= i < new_auth.user_nodes@.len() ==> spec_can_admin_users(spec_parse_auth(*new_auth), (#[trigger] new_auth.user_nodes@[i]).node.verifying_key, new_auth.user_nodes@[i].node.mdate)
+                || spec_is_admin(*room, new_auth.user_nodes@[i].node.verifying_key, new_auth.user_nodes@[i].node.mdate),
             // [new_group_rights_by_admins] and every right entry by a room admin at the entry's date
             r is Ok ==> rights_by_admin(*room, new_auth.right_nodes@),
             // [new_group_user_admins_by_admins] and every user-admin entry by a room admin at the entry's date
